@@ -779,6 +779,12 @@ func (ctx Ctx) callExpr(s *ast.CallExpr) coq.Expr {
 		msg = strings.ReplaceAll(msg, "\"", "\"\"")
 		return coq.NewCallExpr(coq.GallinaIdent("Panic"), coq.GallinaString(msg))
 	}
+	if len(s.Args) == 1 {
+		if tuple, ok := ctx.typeOf(s.Args[0]).(*types.Tuple); ok && tuple.Len() > 1 {
+			// f(g()) where g's results are spread over f's parameters
+			ctx.unsupported(s, "call whose arguments are the results of a multi-valued call")
+		}
+	}
 	// Special case for *sync.NewCond
 	if _, ok := s.Fun.(*ast.SelectorExpr); ok {
 	} else {
